@@ -25,6 +25,10 @@ type ctl struct {
 	// injected partition borders (nil = ask the engine)
 	splits [][]byte
 
+	// iterator fault (scanner retry path): the NEXT iterator created fails its iterFault-th Next call once
+	iterFault       int
+	iterFaultsFired int
+
 	// engine-timestamp fault (C15): when armed, the first GetTimestampOracle after the next successful
 	// commit fails, and the oracle read after that one is slow (so that whoever reads the lock's
 	// description does so before a later read refreshes it)
@@ -149,6 +153,21 @@ func (w *kvWrap) Get(ctx context.Context, key []byte) ([]byte, error) {
 
 type itWrap struct {
 	storage.Iter
+	c     *ctl
+	fault int // fail this iterator's fault-th Next call once (0 = never)
+	calls int
+}
+
+// Next injects one transient (non-EOF) error in the middle of a scan: the scanner retries the partition.
+func (it *itWrap) Next(ctx context.Context) error {
+	it.calls++
+	if it.fault > 0 && it.calls == it.fault {
+		it.c.mu.Lock()
+		it.c.iterFaultsFired++
+		it.c.mu.Unlock()
+		return errInjected
+	}
+	return it.Iter.Next(ctx)
 }
 
 func (w *kvWrap) Iter(ctx context.Context, start, end []byte, ts uint64, limit uint64) (storage.Iter, error) {
@@ -157,7 +176,11 @@ func (w *kvWrap) Iter(ctx context.Context, start, end []byte, ts uint64, limit u
 	if err != nil {
 		return nil, err
 	}
-	return &itWrap{it}, nil
+	w.c.mu.Lock()
+	f := w.c.iterFault
+	w.c.iterFault = 0
+	w.c.mu.Unlock()
+	return &itWrap{Iter: it, c: w.c, fault: f}, nil
 }
 
 func unwrapIter(it storage.Iter) storage.Iter {
